@@ -3,6 +3,7 @@ import Vanguard.Lemmas.Chunking
 import Vanguard.Lemmas.ReadSizes
 import Vanguard.Lemmas.ReframeStream
 import Vanguard.Lemmas.WriteSplit
+import Vanguard.Lemmas.ReframeSplit
 import Vanguard.Model.World
 /-!
   C08 — Results do not depend on how bytes are split across reads, writes, flushes.
@@ -160,5 +161,20 @@ theorem every_reframing_read_is_a_stream_step (w : World) (ce se : Enveloper) (s
     (hce : st.op.clientEnveloper = some ce) (hse : st.op.serverEnveloper = some se) (hwf : r.WF) (herr : r.err = none) :
     EStepOk ce se st (erSpec ce se st r) (erRead w st r n) :=
   erRead_step w ce se st r n hn hce hse hwf herr
+
+/-- **On the re-framing path the split of a well-formed response across `Write` calls does not matter**: any
+    two ways of cutting the same sequence of legal backend frames into pieces (inside envelopes, inside
+    payloads, between messages, with empty pieces) succeed and put the same bytes on the client's connection. -/
+theorem reframing_write_split_does_not_matter (w : World) (tb : Tables) (se cc : Enveloper) (st : St)
+    (fs : List Frame) (p1 p2 : List Bytes)
+    (hb : st.rw.buf = none) (hse : st.op.serverEnveloper = some se) (hcc : st.op.clientEnveloper = some cc)
+    (hok : ∀ x ∈ fs, x.ok se st.op.conf.maxMsg) (h1 : p1.flatten = framesBytes fs) (h2 : p2.flatten = framesBytes fs) :
+    ∃ s1 e1 s2 e2,
+      ewWrites w tb st { initialized := true, writingEnvelope := true, remaining := 5 } p1 = (s1, e1, false, false) ∧
+      ewWrites w tb st { initialized := true, writingEnvelope := true, remaining := 5 } p2 = (s2, e2, false, false) ∧
+      rawBytes s1.sink.items = rawBytes s2.sink.items := by
+  obtain ⟨s1, e1, ha, hra⟩ := ewWrites_clean_stream w tb se cc st fs p1 hb hse hcc hok h1
+  obtain ⟨s2, e2, hb', hrb⟩ := ewWrites_clean_stream w tb se cc st fs p2 hb hse hcc hok h2
+  exact ⟨s1, e1, s2, e2, ha, hb', hra.trans hrb.symm⟩
 
 end Vanguard.C08
